@@ -11,6 +11,7 @@ Ops (see `harness/go/cmd/c06`):
   hold-remove                          → ok                    (gate `queue.before-remove` closed)
   flush-remove                         → ok n=<k>
   drain                                → drained to=<ids|-> | panic negative-waitgroup
+  idle ms=<n>                          → to=<ids|->            (real time passes, mock time does not)
   await bound=<ms>    (mode=real only) → blocked=<ids|-> within=1
 -/
 open LunarVerif LunarVerif.Proto LunarVerif.C06
@@ -36,13 +37,14 @@ def parseCfg (ws : List String) : Option (Cfg × Nat × Bool) := do
 
 structure RunSt where
   cfg : Cfg := ⟨0, 1000, 0, 1000⟩
-  s : St := St.init 0
+  x : Sim := { s := St.init 0 }
   ready : Bool := false
   real : Bool := false
-  hold : Bool := false
-  gate : List Nat := []      -- ids held at queue.after-slot-check, oldest first
   drained : Bool := false
   dead : Bool := false
+
+def RunSt.s (st : RunSt) : St := st.x.s
+def RunSt.op (st : RunSt) (op : Op) : RunSt := { st with x := applyOp st.cfg st.x op }
 
 /-- Events emitted since the trace had length `n0`, oldest first. -/
 def newEvents (s : St) (n0 : Nat) : List Ev := (s.trace.take (s.trace.length - n0)).reverse
@@ -71,7 +73,7 @@ def runStep (st : RunSt) (line : String) : RunSt × String :=
     match parseCfg ws with
     | some (cfg, t0, real) =>
       if real && cfg.qmax != 0 then (st, "bad-op")
-      else ({ cfg := cfg, s := St.init t0, ready := true, real := real }, "ok")
+      else ({ cfg := cfg, x := { s := St.init t0 }, ready := true, real := real }, "ok")
     | none => (st, "bad-op")
   | op :: ws =>
     if !st.ready then (st, "bad-op")
@@ -84,47 +86,52 @@ def runStep (st : RunSt) (line : String) : RunSt × String :=
       match kvNat ws "id", parsePrio ws with
       | some id, some p =>
         if id != st.s.n then (st, "bad-op") else
-        let s' := opArrive st.cfg st.s p
-        ({ st with s := s' }, if (s'.reqs id).pc == .parked then "queued" else "blocked")
+        let st' := st.op (.arrive p)
+        (st', if (st'.s.reqs id).pc == .parked then "queued" else "blocked")
       | _, _ => (st, "bad-op")
     | "arrive-begin" =>
       match kvNat ws "id", parsePrio ws with
       | some id, some p =>
         if id != st.s.n || st.real then (st, "bad-op") else
-        let s' := step st.cfg st.s (.arrive p)
-        if (s'.reqs id).pc == .checked then ({ st with s := s', gate := st.gate ++ [id] }, "at-gate")
-        else ({ st with s := s' }, "blocked")
+        let st' := st.op (.arriveBegin p)
+        (st', if (st'.s.reqs id).pc == .checked then "at-gate" else "blocked")
       | _, _ => (st, "bad-op")
     | "arrive-end" =>
-      match kvNat ws "id", st.gate with
-      | some id, g :: rest =>
-        if id != g then (st, "bad-op") else
-        ({ st with s := run st.cfg st.s [.register id, .push id], gate := rest }, "queued")
+      match kvNat ws "id", st.x.gate with
+      | some id, g :: _ =>
+        if id != g then (st, "bad-op") else (st.op (.arriveEnd id), "queued")
       | _, _ => (st, "bad-op")
     | "tick" =>
       if st.real || !ws.isEmpty then (st, "bad-op") else
-      let s' := opTick st.cfg st.hold st.s
-      let evs := newEvents s' n0
-      ({ st with s := s' }, s!"to={fmtIds (timeouts evs)} log={fmtLog evs}")
+      let st' := st.op .tick
+      let evs := newEvents st'.s n0
+      (st', s!"to={fmtIds (timeouts evs)} log={fmtLog evs}")
+    | "idle" =>
+      match kvNat ws "ms" with
+      | some _ =>
+        if st.real then (st, "bad-op") else
+        let st' := st.op .idle
+        (st', s!"to={fmtIds (timeouts (newEvents st'.s n0))}")
+      | none => (st, "bad-op")
     | "hold-remove" =>
-      if st.real then (st, "bad-op") else ({ st with hold := true }, "ok")
+      if st.real then (st, "bad-op") else (st.op .holdRemove, "ok")
     | "flush-remove" =>
       if st.real then (st, "bad-op") else
       let k := (idsWhere st.s fun r => match r.pc with | .returned _ => true | _ => false).length
-      ({ st with hold := false, s := settle st.cfg false st.s }, s!"ok n={k}")
+      (st.op .flushRemove, s!"ok n={k}")
     | "drain" =>
       if st.real then (st, "bad-op") else
-      let s' := opDrain st.cfg st.hold st.s
-      let evs := newEvents s' n0
-      if hasPanic evs then ({ st with s := s', dead := true }, "panic negative-waitgroup")
-      else ({ st with s := s', drained := true }, s!"drained to={fmtIds (timeouts evs)}")
+      let st' := st.op .drain
+      let evs := newEvents st'.s n0
+      if hasPanic evs then ({ st' with dead := true }, "panic negative-waitgroup")
+      else ({ st' with drained := true }, s!"drained to={fmtIds (timeouts evs)}")
     | "await" =>
       match kvNat ws "bound" with
       | some _ =>
         if !st.real then (st, "bad-op") else
-        let s' := iter (opTick st.cfg false) (fun _ => false) (st.cfg.ttl / 100 + 1) st.s
-        let evs := newEvents s' n0
-        ({ st with s := s' }, s!"blocked={fmtIds (timeouts evs)} within=1")
+        let st' := (List.replicate (st.cfg.ttl / 100 + 1) Op.tick).foldl RunSt.op st
+        let evs := newEvents st'.s n0
+        (st', s!"blocked={fmtIds (timeouts evs)} within=1")
       | none => (st, "bad-op")
     | _ => (st, "bad-op")
   | _ => (st, "bad-op")
@@ -167,6 +174,7 @@ def judgeStep (s : JudgeSt) (op out : String) : JudgeSt :=
   if s.bad.isSome then s else
   let fail (m : String) : JudgeSt := { s with bad := some (m ++ ":" ++ pctEnc op ++ ":" ++ pctEnc out) }
   let ows := words out
+  if ows.head? == some "panic" && (words op).head? != some "drain" then s.push [.panic] else
   match words op with
   | "cfg" :: ws =>
     match parseCfg ws with
@@ -205,6 +213,10 @@ def judgeStep (s : JudgeSt) (op out : String) : JudgeSt :=
         | some s3 => s3
         | none => fail "unparsable"
     | _, _ => if out == "bad-op" || out == "dead" then s else fail "unparsable"
+  | "idle" :: _ =>
+    match kv ows "to" >>= parseIds with
+    | some ids => ids.foldl (fun s i => s.verdict i false) s
+    | none => if out == "bad-op" || out == "dead" then s else fail "unparsable"
   | ["hold-remove"] => if out == "ok" then { s with hold := true } else s
   | ["flush-remove"] =>
     if out.startsWith "ok" then { s.push (s.held.map .unwatched) with hold := false, held := [] } else s
